@@ -14,10 +14,27 @@ MANIFEST = {
             "CEK, the ciphertext with its tag, the nonce taken from the parameters and the key identifier / SID fields that enter key derivation to the primitives, so their integrity "
             "covers the blob. Tie: every single-bit flip, insertions/deletions/truncations and multi-site mutations of library-made blobs (each configuration, both layouts) through the "
             "public API vs the model under the symbolic crypto (ideal by construction), and the same campaign with the real crypto (never a different plaintext).",
-    "note": "Integrity of AES key wrap and AES-GCM (INT-CTXT) is an idealised premise, not proved; the theorem establishes the routing of fields. Fields that can change while the same plaintext is still returned (key identifier version, flag bits other than bit 0, names, ICV length INTEGER, trailing bytes) are listed with examples.",
+    "note": "Integrity of AES key wrap and AES-GCM (INT-CTXT) is an idealised premise, not proved; the theorem establishes the routing of fields. The premise NoForgery is about the "
+            "modified blob itself: (i) if its wrapped-key field unwraps under the KEK that get_kek derives FROM THE MODIFIED BLOB'S OWN key identifier, it is the original wrapped key, (ii) if "
+            "its content decrypts under the original CEK it is the original content. It therefore EXCLUDES, besides breaks of the primitives, every modification that makes the receiver "
+            "derive a KEK the modifier knows. Two such modifications exist and are outside the theorem: in public-key mode (key identifier flag bit 0) the KEK depends only on the "
+            "sender's ephemeral private key and the group PUBLIC key, so anyone who holds the group public key can make a valid blob (that is what protect does; no sender is authenticated), "
+            "and a DH public value of small order confines the shared secret to a few values. The audit that pointed this out found a genuine defect (D16: the DH parameters and public value "
+            "were taken from the blob, so 0 / 1 / p-1 or a modifier-chosen group gave a KEK without ANY key material; repaired in /repo 3712d46) and a residual that cannot be repaired without "
+            "the subgroup order (known finding F1 in known_findings.txt: a public value of order 7 or 13 in the default group; one of 7 candidate blobs decrypts). The theorems quantify over "
+            "blobs made by protect_offline naming the root key (nonce mode); public-key-mode ORIGINALS are covered by the correspondence corpus only. C04_benign_fields is a sufficiency "
+            "statement for key identifier version, flag bits other than bit 0 and the names; that the ICV length INTEGER is benign is shown by examples and "
+            "the campaign, not by a theorem; there is no 'only these fields' theorem.",
     "technique": "Coq proof under explicit ideal-primitive premises + exhaustive bit-flip correspondence",
 }
-ASSUMPTIONS = ["IdealLaws + NoForgery: ciphertext integrity of AES-KW / AES-GCM under keys the attacker does not hold"]
+ASSUMPTIONS = ["IdealLaws: AES-KW / AES-GCM decrypt only images of their encryption under the same key (INT-CTXT idealisation)",
+               "NoForgery (premise about the modified blob): it carries no new valid wrap image under the KEK derived from ITS OWN key identifier and no new valid GCM image under the original CEK - this excludes modifiers who can predict that KEK (holders of the group public key in public-key mode; small-order DH public values: known finding F1)"]
+PARTIAL = [
+    "the theorems are about originals made by protect_offline naming the root key (nonce mode); originals in public-key mode (DH / ECDH) are covered by the tamper corpus, not by a theorem",
+    "public-key mode authenticates no sender: a modifier holding the group public key, or using a DH public value of small order (known finding F1), makes the receiver derive a KEK the "
+    "modifier knows; such modified blobs falsify the NoForgery premise, i.e. the theorem says nothing about them, and for F1 the property as written fails on the code",
+    "C04_benign_fields: sufficiency only, for key identifier version / flag bits other than bit 0 / names; no theorem for the ICV length INTEGER or for 'only these fields'",
+]
 RULE = ("per configuration (4 hashes, positions, in-envelope and trailing layout): every single-bit flip (quick: every 3rd), byte insert/delete/substitute, truncations, two-site "
         "mutations; outcome = same plaintext | error bucket | needs-network; non-trivial = distinct outcome per distinct input; plus the real-crypto campaign on one blob")
 
